@@ -167,6 +167,32 @@ where
             OperationType::DeferredDumpBlobIndexes => {
                 self.defer_blob_indexes_dump().await?;
             },
+            #[cfg(feature = "verif")]
+            OperationType::VerifBarrier => {
+                self.verif_barrier(msg.barrier, msg.barrier_flush_deferred).await?;
+            },
+        }
+        Ok(())
+    }
+
+    /// Verification probe: wait for everything the worker has started or deferred, then answer
+    #[cfg(feature = "verif")]
+    async fn verif_barrier(&mut self, barrier: Option<Arc<Semaphore>>, flush_deferred: bool) -> Result<()> {
+        complete_task(&mut self.index_dump_task, "index_dump_task").await;
+        complete_task(&mut self.fsync_task, "fsync_task").await;
+        while flush_deferred && self.deferred_index_dump_info.is_some() {
+            if let Some(deadline) = self.next_deadline.take() {
+                tokio::time::sleep_until(deadline + DEFERRED_PROCESS_DEADLINE_EPS).await;
+            }
+            self.process_defered().await?;
+            complete_task(&mut self.index_dump_task, "index_dump_task").await;
+            if self.deferred_index_dump_info.is_some() && self.next_deadline.is_none() {
+                // dump task was busy and the event was re-armed without deadline: arm it as the worker would
+                self.defer_blob_indexes_dump().await?;
+            }
+        }
+        if let Some(barrier) = barrier {
+            barrier.add_permits(1);
         }
         Ok(())
     }
